@@ -21,7 +21,7 @@ Open Scope list_scope.
 
 Infix "^^" := String.append (at level 60, right associativity).
 
-Definition oid := nat.
+Notation oid := nat (only parsing).
 
 (** ** Classes, fields, heap *)
 
@@ -445,8 +445,8 @@ Fixpoint run_sched (key : nat -> nat) (h : heap) (sched : list nat) (w : world) 
   end.
 
 (** All threads about to call [repr(v)], nothing set anywhere. *)
-Definition start_world (v : nat -> value) : world :=
-  W (fun t => Th (CEval (v t)) [] [] []) (fun _ => None).
+Definition start_world (v : nat -> value) (fl : nat -> list bool) : world :=
+  W (fun t => Th (CEval (v t)) [] [] (fl t)) (fun _ => None).
 
 Definition id_key (t : nat) : nat := t.
 Definition shared_key (_ : nat) : nat := 0.
